@@ -347,7 +347,7 @@ def run(R, ctx):
     R.explanation = (
         "The four anchored guards of the optional refactorings as guard-before-act / decision-table / subset rules on typed THIR, "
         "plus the scope-visitor typestate for convert_square_root_call. Necessary conditions only; the refactorings' full semantics "
-        "are not decided."
+        "are not decided. Decision / transfer functions among these are decided by finite-domain evaluation of their typed tree (sa/peval.py): every point of a small abstract domain is evaluated and compared with the reference; nothing is sampled and no program input exists."
     )
     R.assumptions += ["FindVariables is trusted to find every textual use of a name (it over-approximates: shadowed uses count as uses)"]
     merge(R, ctx)
